@@ -328,6 +328,8 @@ class _ListDict_(object):
                 self.max_weight_count -= 1
                 if self.max_weight_count == 0 and len(self)>0:
                     self._update_max_weight()
+                    if self.max_weight == 0:
+                        self._total_weight = 0 #only zero weights are left: no roundoff residue
 
     def choose_random(self):
         # r'''chooses a random node.  If there is a weight, it will use rejection
